@@ -157,6 +157,32 @@ func randIPv6(r *vh.Rng) string {
 	return strings.Join(gs[:ell], ":") + "::" + strings.Join(gs[ell:], ":")
 }
 
+var uuidPool = []string{
+	"00000000-0000-0000-0000-000000000000", "ffffffff-ffff-ffff-ffff-ffffffffffff", "6ba7b810-9dad-11d1-80b4-00c04fd430c8",
+	"6BA7B810-9DAD-11D1-80B4-00C04FD430C8", "6ba7b8109dad11d180b400c04fd430c8", "6bA7b810-9DAD-11d1-80B4-00c04fd430C8",
+	"6b-a7-b8-10-9d-ad-11-d1-80-b4-00-c0-4f-d4-30-c8", "--6ba7b810--9dad-11d1-80b4-00c04fd430c8--", "6ba7b810-9dad-11d1-80b4-00c04fd430c8-",
+	"{6ba7b810-9dad-11d1-80b4-00c04fd430c8}", "urn:uuid:6ba7b810-9dad-11d1-80b4-00c04fd430c8", "6ba7b810-9dad-11d1-80b4-00c04fd430c", "6ba7b810-9dad-11d1-80b4-00c04fd430c88",
+	"6-ba7b810-9dad-11d1-80b4-00c04fd430c8", "6ba7b810-9dad-11d1-80b4-00c04fd430cg", " 6ba7b810-9dad-11d1-80b4-00c04fd430c8", "6ba7b810-9dad-11d1-80b4-00c04fd430c8 ",
+	"6ba7b810_9dad_11d1_80b4_00c04fd430c8", "", "-", "6ba7b810-9dad-11d1-80b4", "６ba7b810-9dad-11d1-80b4-00c04fd430c8", "0x6ba7b8109dad11d180b400c04fd430c8",
+	"6ba7b810-9dad-11d1-80b4-00c04fd430c8\x00", "(6ba7b810-9dad-11d1-80b4-00c04fd430c8)", "6ba7b810-9dad-11d1-80b4-00c04fd430c8\n",
+}
+
+func randUUIDStr(r *vh.Rng) string {
+	b := r.Bytes(16)
+	s := fmt.Sprintf("%x-%x-%x-%x-%x", b[0:4], b[4:6], b[6:8], b[8:10], b[10:16])
+	switch r.Intn(6) {
+	case 0:
+		s = strings.ToUpper(s)
+	case 1:
+		s = strings.ReplaceAll(s, "-", "")
+	case 2:
+		s = "{" + s + "}"
+	case 3:
+		s = "urn:uuid:" + s
+	}
+	return s
+}
+
 func genStr(r *vh.Rng, tier string) []strCase {
 	var out []strCase
 	add := func(col, s, class string) {
@@ -211,6 +237,20 @@ func genStr(r *vh.Rng, tier string) []strCase {
 			add("date", mutate(r, s), "rand-mutated")
 		} else {
 			add("date", s, "rand")
+		}
+	}
+	for _, col := range []string{"uuid", "timeuuid"} {
+		for _, s := range uuidPool {
+			add(col, s, "pool")
+		}
+	}
+	for i := 0; i < 300*reps; i++ {
+		col := []string{"uuid", "timeuuid"}[r.Intn(2)]
+		s := randUUIDStr(r)
+		if r.Intn(3) == 0 {
+			add(col, mutate(r, s), "rand-mutated")
+		} else {
+			add(col, s, "rand")
 		}
 	}
 	for i := 0; i < 200*reps; i++ {
